@@ -9,7 +9,10 @@
 //	    UnmarshalBinary, hdr.Validate(), header.Verify(head, hdr), adjacent append to a real go-header store;
 //	(c) end to end: a real syncing Manager — SyncLoop, HeaderStoreRetrieveLoop, DataStoreRetrieveLoop, DAIncluderLoop
 //	    unmodified under testing/synctest — fed the genuine traffic of a real aggregator interleaved with
-//	    adversarial items, and compared with the run on the genuine traffic alone.
+//	    adversarial items, and compared with the run on the genuine traffic alone;
+//	(d) crowded DA heights (item via=dah): the proposer's header/data together with hundreds of third-party blobs
+//	    published at ONE height of the node's DA double and read by the real processNextDAHeaderAndData ->
+//	    fetchBlobs -> types.RetrieveWithHelpers (GetIDs, Get in batches of 100 ids) -> handlePotentialHeader/Data.
 //
 // Writes cases_C03.v (for Model/Admission.v) and result.json (oracle).
 package c03
@@ -190,6 +193,15 @@ type runResult struct {
 	itemTerms       []string
 	unsignedApplied []uint64
 	unsignedStored  []uint64
+	fetch           [][][2]int // per DA-height item read by the node: the da.Get calls (first id, count)
+	skipped         []skip     // proposer's blobs present at a scanned DA height that got no DA-included mark
+	scanErr         string     // processNextDAHeaderAndData returned an error on a DA height the double serves
+}
+
+// skip: a blob signed by the proposer sat at position pos of a DA height of n blobs and was passed over
+type skip struct {
+	idx, pos, n int
+	what        string
 }
 
 const (
@@ -204,6 +216,11 @@ const (
 	sigHaltP2P    = "sync-halts-after-unauthenticated-p2p-data"
 	sigDivergeP2P = "end-state-diverges-after-forged-p2p-item"
 	sigUnexpected = "unexpected-admission"
+	// a DA height whose scan returned nil (so RetrieveLoop moves on for good) although a blob signed by the
+	// proposer that the DA layer holds at that height was neither marked DA-included nor handed to the syncer
+	sigSkipped      = "proposer-blob-skipped-at-da-height"
+	sigSkippedCrowd = "proposer-blob-skipped-at-da-height-over-100-blobs"
+	sigScanErr      = "da-height-scan-error"
 )
 
 // class of an adversarial item the node admitted: a decidable predicate of the item itself
@@ -279,6 +296,20 @@ func (w *world) run(items []Item) *runResult {
 		synctest.Wait()
 	}
 	for i, it := range items {
+		if it.Via == "dah" {
+			subs, blobs := w.buildHeight(it)
+			out := uint64(0)
+			if !res.crashed {
+				out = 10 + w.scanHeight(ctx, n, res, i, uint64(i+1), subs, blobs)
+				synctest.Wait()
+				if !res.crashed {
+					tick()
+				}
+			}
+			res.outs = append(res.outs, out)
+			res.itemTerms = append(res.itemTerms, w.heightTerm(subs))
+			continue
+		}
 		if res.crashed {
 			res.outs = append(res.outs, 0)
 			b := w.build(it, nil)
@@ -394,6 +425,91 @@ func (w *world) run(items []Item) *runResult {
 	return res
 }
 
+// buildHeight builds the blobs of a DA-height item: one built per entry of Blobs, and the blob list with repetitions.
+func (w *world) buildHeight(it Item) (subs []*built, blobs [][]byte) {
+	for _, sub := range it.Blobs {
+		sub.Via = "da"
+		b := w.build(sub, nil)
+		subs = append(subs, b)
+		for k := 0; k < sub.rep(); k++ {
+			blobs = append(blobs, b.bytes)
+		}
+	}
+	return subs, blobs
+}
+
+// heightTerm: the model's description of a DA height, run-length (expanded by Check.AdmissionCheck.rl)
+func (w *world) heightTerm(subs []*built) string {
+	var p []string
+	for _, b := range subs {
+		p = append(p, fmt.Sprintf("(%d, %s)", b.it.rep(), w.blobTerm(b)))
+	}
+	return "(IDAHeight (rl [" + strings.Join(p, "; ") + "]))"
+}
+
+// scanHeight publishes the blobs at DA height daH of the node's DA layer and lets the REAL retriever read it:
+// processNextDAHeaderAndData -> fetchBlobs -> types.RetrieveWithHelpers (GetIDs, batched Get) -> handlePotentialHeader /
+// handlePotentialData per blob.  Returns the number of blobs that got a DA-included mark at daH.
+func (w *world) scanHeight(ctx context.Context, n *nodeParts, res *runResult, idx int, daH uint64, subs []*built, blobs [][]byte) uint64 {
+	n.da.heights[daH] = blobs
+	n.m.VerifSetDAHeight(daH)
+	var perr error
+	func() {
+		defer func() {
+			if r := recover(); r != nil {
+				res.crashed = true
+			}
+		}()
+		perr = n.m.VerifProcessNextDAHeaderAndData(ctx)
+	}()
+	synctest.Wait()
+	res.fetch = append(res.fetch, n.da.gets[daH])
+	if perr != nil && !res.crashed {
+		res.scanErr = fmt.Sprintf("item %d: DA height with %d blobs: %v", idx, len(blobs), perr)
+	}
+	// which blobs of the height have their header hash / data commitment marked DA-included at daH.  A third-party
+	// copy of a content the proposer published at this same height shares its hash: its mark is the proposer's.
+	hashOf := func(b *built) string {
+		switch {
+		case b.sh != nil:
+			return "h:" + b.sh.Hash().String()
+		case b.sd != nil:
+			return "d:" + b.sd.Data.DACommitment().String()
+		}
+		return ""
+	}
+	genuineHash := map[string]bool{}
+	for _, b := range subs {
+		if !w.isAdversarial(b) && hashOf(b) != "" {
+			genuineHash[hashOf(b)] = true
+		}
+	}
+	marked := uint64(0)
+	pos := 0
+	for _, b := range subs {
+		ok, kind := false, ""
+		if b.sh != nil {
+			dh, has := n.m.VerifC03HeaderDAIncludedHeight(b.sh.Hash().String())
+			ok, kind = has && dh == daH, fmt.Sprintf("header of block %d", b.sh.Height())
+		}
+		if b.sd != nil {
+			dh, has := n.m.VerifC03DataDAIncludedHeight(b.sd.Data.DACommitment().String())
+			ok, kind = has && dh == daH, fmt.Sprintf("signed data of block %d", b.it.H)
+		}
+		switch {
+		case ok:
+			marked += uint64(b.it.rep())
+			if w.isAdversarial(b) && !genuineHash[hashOf(b)] {
+				res.admitted = append(res.admitted, admitted{idx, w.admissionClass(b)})
+			}
+		case !b.it.Adv && kind != "" && perr == nil && !res.crashed:
+			res.skipped = append(res.skipped, skip{idx, pos, len(blobs), kind})
+		}
+		pos += b.it.rep()
+	}
+	return marked
+}
+
 func (w *world) itemTerm(b *built, linked bool) string {
 	switch b.it.Via {
 	case "init":
@@ -451,6 +567,16 @@ func (w *world) oracle(ref, got *runResult) (sigs []string, what map[string]stri
 	}
 	viaP2P := known[sigF4] || known[sigP2PData]
 	viaDA := known[sigF3Header] || known[sigF3Data] || known[sigPanic]
+	for _, sk := range got.skipped {
+		sig := sigSkipped
+		if sk.n > 100 {
+			sig = sigSkippedCrowd
+		}
+		add(sig, fmt.Sprintf("item %d: a DA height holding %d blobs (%d of them ahead of it): the proposer's %s was neither marked DA-included nor handed to the syncer, yet the scan of the height returned nil, so the retrieve loop moves past this DA height for good", sk.idx, sk.n, sk.pos, sk.what))
+	}
+	if got.scanErr != "" {
+		add(sigScanErr, "processNextDAHeaderAndData failed on a DA height the DA layer serves without error: "+got.scanErr)
+	}
 	if got.crashed && !known[sigPanic] {
 		add("unexplained-crash", "a goroutine of the node panicked")
 	}
@@ -476,6 +602,8 @@ func (w *world) oracle(ref, got *runResult) (sigs []string, what map[string]stri
 			switch {
 			case viaP2P:
 				add(sigDivergeP2P, wh+" (a forged item sits in a go-header store; the genuine item of that height is rejected as known)")
+			case len(got.skipped) > 0:
+				// the cause is reported above (proposer's blob passed over at a DA height)
 			case viaDA:
 				add(sigDiverge, wh)
 			default:
@@ -637,7 +765,126 @@ func interleave(r *rand.Rand, g, a []Item) []Item {
 func genuineOnly(items []Item) []Item {
 	var out []Item
 	for _, it := range items {
-		if !it.Adv {
+		if it.Adv {
+			continue
+		}
+		if it.Via == "dah" { // the DA height without the third-party blobs
+			var keep []Item
+			for _, b := range it.Blobs {
+				if !b.Adv {
+					keep = append(keep, b)
+				}
+			}
+			if len(keep) == 0 {
+				continue
+			}
+			it.Blobs = keep
+		}
+		out = append(out, it)
+	}
+	return out
+}
+
+// ---- crowded DA heights: many third-party blobs at the DA height that carries the proposer's blobs ---------
+
+// thirdPartyRuns: n third-party blobs as 1-3 runs of identical blobs (any adversarial DA kind of genAdvItem)
+func thirdPartyRuns(r *rand.Rand, L uint64, n int) []Item {
+	var out []Item
+	for n > 0 {
+		k := n
+		if len(out) < 2 && n > 1 && r.Intn(100) < 55 {
+			k = 1 + r.Intn(n)
+		}
+		it := genAdvItem(r, L, "da")
+		it.Rep = k
+		out = append(out, it)
+		n -= k
+	}
+	return out
+}
+
+// crowdSize: how many third-party blobs share the DA height; the boundaries of RetrieveWithHelpers' batches of 100 ids
+func crowdSize(r *rand.Rand, tier string) int {
+	switch p := r.Intn(100); {
+	case p < 60:
+		return []int{99, 100, 101, 130, 150, 198, 199, 200, 201, 250, 298, 299, 300, 301, 350}[r.Intn(15)]
+	case p < 82:
+		return 101 + r.Intn(250)
+	case p < 92:
+		return r.Intn(100)
+	}
+	if tier == "thorough" {
+		return 351 + r.Intn(700)
+	}
+	return 98
+}
+
+// crowdedHeight: the proposer's blobs gen (0-2 items) with T third-party blobs ahead of / between / behind them
+func crowdedHeight(r *rand.Rand, L uint64, gen []Item, tier string) Item {
+	T := crowdSize(r, tier)
+	front := r.Intn(T + 1)
+	if r.Intn(100) < 45 { // the proposer's blobs come last or nearly last: inside the trailing (partial) batch
+		front = T - r.Intn(T%100+1)
+		if r.Intn(100) < 50 {
+			front = T
+		}
+	}
+	mid := 0
+	if len(gen) == 2 && r.Intn(100) < 35 {
+		mid = r.Intn(T - front + 1)
+	}
+	it := Item{Via: "dah"}
+	it.Blobs = append(it.Blobs, thirdPartyRuns(r, L, front)...)
+	for i, g := range gen {
+		it.Blobs = append(it.Blobs, g)
+		if i == 0 && len(gen) == 2 {
+			it.Blobs = append(it.Blobs, thirdPartyRuns(r, L, mid)...)
+		}
+	}
+	it.Blobs = append(it.Blobs, thirdPartyRuns(r, L, T-front-mid)...)
+	it.Adv = len(gen) == 0
+	return it
+}
+
+// crowdHeights rewrites the genuine traffic: for one or two blocks delivered over DA, the header and/or data blob
+// no longer arrive alone but inside a crowded DA height.
+func crowdHeights(r *rand.Rand, g []Item, L uint64, tier string) []Item {
+	var hs []uint64
+	for _, it := range g {
+		if it.Via == "da" && it.Kind == "hdr" {
+			hs = append(hs, it.H)
+		}
+	}
+	if len(hs) == 0 {
+		return g
+	}
+	pick := map[uint64]int{} // 1 both blobs, 2 header only, 3 data only
+	for k := 0; k < 1+r.Intn(2); k++ {
+		pick[hs[r.Intn(len(hs))]] = []int{1, 1, 1, 1, 2, 3}[r.Intn(6)]
+	}
+	var out []Item
+	done := map[uint64]bool{}
+	for i, it := range g {
+		mode := pick[it.H]
+		if it.Via != "da" || mode == 0 {
+			out = append(out, it)
+			continue
+		}
+		switch {
+		case mode == 1 && !done[it.H]: // both: at the position of the first of the two, in their order of arrival
+			done[it.H] = true
+			pair := []Item{it}
+			for _, o := range g[i+1:] {
+				if o.Via == "da" && o.H == it.H && o.Kind != it.Kind {
+					pair = append(pair, o)
+					break
+				}
+			}
+			out = append(out, crowdedHeight(r, L, pair, tier))
+		case mode == 1: // the second of the pair: already inside the height
+		case (mode == 2 && it.Kind == "hdr") || (mode == 3 && it.Kind == "data"):
+			out = append(out, crowdedHeight(r, L, []Item{it}, tier))
+		default:
 			out = append(out, it)
 		}
 	}
@@ -716,13 +963,45 @@ func runE2E(t *testing.T, rp Replay, tier string, doShrink map[string]bool) *cas
 		for _, o := range got.outs {
 			outs = append(outs, fmt.Sprint(o))
 		}
-		co.coqCase = fmt.Sprintf("CE2E {| ec_gen := %s; ec_now := %d; ec_tb := %s; ec_app0 := %d; ec_t0 := %d;\n ec_items := [%s];\n ec_outs := [%s]; ec_height := %d; ec_halted := %v; ec_crashed := %v; ec_dainc := %d; ec_applied := [%s]; ec_app := %d; ec_hstore := %d; ec_dstore := %d |}",
+		var fetch []string
+		for _, calls := range got.fetch {
+			var cs []string
+			for _, c := range calls {
+				cs = append(cs, fmt.Sprintf("(%d, %d)", c[0], c[1]))
+			}
+			fetch = append(fetch, "["+strings.Join(cs, "; ")+"]")
+		}
+		co.coqCase = fmt.Sprintf("CE2E {| ec_gen := %s; ec_now := %d; ec_tb := %s; ec_app0 := %d; ec_t0 := %d;\n ec_items := [%s];\n ec_outs := [%s]; ec_fetch := ["+strings.Join(fetch, "; ")+"]; ec_height := %d; ec_halted := %v; ec_crashed := %v; ec_dainc := %d; ec_applied := [%s]; ec_app := %d; ec_hstore := %d; ec_dstore := %d |}",
 			w.genesisTerm(), w.now.UnixNano(), w.execTbl(ref.execLog, got.execLog), w.root(w.app0), w.gen.GenesisDAStartTime.UnixNano(),
 			strings.Join(got.itemTerms, ";\n   "), strings.Join(outs, ";"), got.height, got.halted, got.crashed, got.dainc,
 			strings.Join(applied, ";"), w.root(got.app), got.hstoreH, got.dstoreH)
 		co.coqDefs = strings.Join(w.defs, "\n")
 		for _, a := range got.admitted {
 			co.dist = append(co.dist, "admitted:"+a.class)
+		}
+		for i, it := range rp.Items {
+			if it.Via != "dah" {
+				continue
+			}
+			n := it.nBlobs()
+			co.dist = append(co.dist, fmt.Sprintf("dah:blobs=%d..%d", n/100*100, n/100*100+99), fmt.Sprintf("dah:get-calls=%d", (n+99)/100))
+			pos := 0
+			for _, b := range it.Blobs {
+				if !b.Adv && n > 100 {
+					switch {
+					case n%100 != 0 && pos >= n/100*100:
+						co.dist = append(co.dist, "dah:proposer-blob-in-trailing-partial-batch")
+					case pos >= 100:
+						co.dist = append(co.dist, "dah:proposer-blob-behind-100-blobs")
+					default:
+						co.dist = append(co.dist, "dah:proposer-blob-in-first-batch-of-crowded-height")
+					}
+				}
+				pos += b.rep()
+			}
+			if int(got.outs[i]) > 10 {
+				co.dist = append(co.dist, "dah:admitted-some")
+			}
 		}
 		if got.halted {
 			co.dist = append(co.dist, "e2e:halted:"+trimErr(got.haltErr))
@@ -750,8 +1029,45 @@ func shrinkE2E(t *testing.T, rp Replay, tier, sig string) Replay {
 		return false
 	}
 	out := rp
-	out.Items = vgen.Shrink(rp.Items, fails)
+	out.Items = shrinkHeights(vgen.Shrink(rp.Items, fails), fails)
 	return out
+}
+
+// shrinkHeights shrinks inside the DA-height items: drops runs of blobs, then lowers the run lengths
+// (bisection towards the smallest count that still fails).
+func shrinkHeights(items []Item, fails func([]Item) bool) []Item {
+	cur := append([]Item{}, items...)
+	with := func(i int, blobs []Item) []Item {
+		c := append([]Item{}, cur...)
+		c[i].Blobs = blobs
+		return c
+	}
+	for i := range cur {
+		if cur[i].Via != "dah" {
+			continue
+		}
+		for j := 0; j < len(cur[i].Blobs); j++ {
+			cand := append(append([]Item{}, cur[i].Blobs[:j]...), cur[i].Blobs[j+1:]...)
+			if c := with(i, cand); fails(c) {
+				cur = c
+				j--
+			}
+		}
+		for j := range cur[i].Blobs {
+			lo, hi := 1, cur[i].Blobs[j].rep() // invariant: hi fails
+			for lo < hi {
+				mid := (lo + hi) / 2
+				cand := append([]Item{}, cur[i].Blobs...)
+				cand[j].Rep = mid
+				if c := with(i, cand); fails(c) {
+					cur, hi = c, mid
+				} else {
+					lo = mid + 1
+				}
+			}
+		}
+	}
+	return cur
 }
 
 func runAdm(t *testing.T, rp Replay) *caseOut {
@@ -895,10 +1211,19 @@ func genCase(seed int64, c int, tier string) Replay {
 	}
 	rp.Kind = "e2e"
 	g := genGenuine(r, rp.TxCount)
+	// crowded DA heights: decided and built from a PRNG of their own (the other cases stay what they were)
+	rc := rand.New(rand.NewSource(seed*7368787 + int64(c)*31 + 977))
+	crowd := rc.Intn(100) < 40
+	if crowd {
+		g = crowdHeights(rc, g, L, tier)
+	}
 	var adv []Item
 	na := 1 + r.Intn(4)
 	if r.Intn(100) < 12 {
 		na = 0
+	}
+	if crowd && rc.Intn(100) < 30 { // a DA height holding third-party blobs only
+		adv = append(adv, crowdedHeight(rc, L, nil, tier))
 	}
 	for i := 0; i < na; i++ {
 		via := "da"
@@ -958,6 +1283,14 @@ func TestVerif(t *testing.T) {
 		nadv := 0
 		for _, it := range rp.Items {
 			res.Count("item:" + it.Via + "/" + it.Kind)
+			for _, b := range it.Blobs {
+				if b.Adv {
+					res.Count("dah-blob:" + b.Kind)
+					if !it.Adv {
+						nadv++
+					}
+				}
+			}
 			if it.Adv {
 				nadv++
 				res.Count("adv:" + it.Kind + ":mut=" + it.Mut)
@@ -998,7 +1331,7 @@ func TestVerif(t *testing.T) {
 		}
 	}
 	res.Distinct = len(distinct)
-	res.Rule = "per case a fresh world: 3 real Ed25519 keys, a real aggregator Manager producing 3-5 blocks (thorough: 3-8; 60% non-empty); every third case = admission case (10 adversarial + all genuine DA blobs each on a fresh non-aggregator Manager; 8 adversarial + genuine gossip headers through go-header's Validate/Verify/append on a real store); other cases = end-to-end: genuine traffic (P2P init 60%, each block over DA/P2P/both, 15% neighbour swaps) interleaved at random positions with 0-4 adversarial items (45% over P2P, of which 45% data; F3 shape 38% of headers, honest third party, stolen signature, unsigned hash-linked, junk signature, wrong chain id, past/future height, future time, truncated/junk/undecodable/empty blobs, forged data with and without Metadata, linked/unlinked P2P data) on a real syncing Manager under synctest, plus the genuine-only reference run; non-trivial = at least one adversarial item and 4 items; distinct = distinct (tx counts, item list)"
+	res.Rule = "per case a fresh world: 3 real Ed25519 keys, a real aggregator Manager producing 3-5 blocks (thorough: 3-8; 60% non-empty); every third case = admission case (10 adversarial + all genuine DA blobs each on a fresh non-aggregator Manager; 8 adversarial + genuine gossip headers through go-header's Validate/Verify/append on a real store); other cases = end-to-end: genuine traffic (P2P init 60%, each block over DA/P2P/both, 15% neighbour swaps) interleaved at random positions with 0-4 adversarial items (45% over P2P, of which 45% data; F3 shape 38% of headers, honest third party, stolen signature, unsigned hash-linked, junk signature, wrong chain id, past/future height, future time, truncated/junk/undecodable/empty blobs, forged data with and without Metadata, linked/unlinked P2P data) on a real syncing Manager under synctest, plus the genuine-only reference run; 40% of the end-to-end cases are crowded: for 1-2 blocks delivered over DA the proposer's header and/or data blob sit in ONE DA height together with 0-350 (thorough: up to 1050) third-party blobs (sizes on the boundaries of RetrieveWithHelpers' batches of 100 ids: 99,100,101,130,...,299,300,301,350, or uniform) of the adversarial DA kinds, ahead of / between / behind the proposer's blobs (45%: the proposer's blobs last or within the trailing partial batch), 30% of them also get a DA height of third-party blobs only; such a height is published on the node's DA double and read by the real processNextDAHeaderAndData -> fetchBlobs -> types.RetrieveWithHelpers (GetIDs + batched Get) -> handlePotentialHeader/Data; non-trivial = at least one adversarial item and 4 items; distinct = distinct (tx counts, item list)"
 	res.Cases = len(cases)
 	header := "From Coq Require Import String NArith ZArith List Bool.\nFrom Verif Require Import Model.Types Model.Admission Check.AdmissionCheck.\nLocal Open Scope N_scope."
 	path := filepath.Join(e.Out, "cases_C03.v")
